@@ -12,6 +12,7 @@ import NmVerif.Containers.EitherProofs
 import NmVerif.Containers.EitherLifetime
 import NmVerif.Containers.LedgerSim
 import NmVerif.Containers.SmallVectorLedger
+import NmVerif.Containers.SmallVectorFree
 /-
   C19 — The STL-free containers behave like their standard counterparts over any history.
   Property statements only (+ non-vacuity examples, counterexample theorems for the defects of the unchanged tree).
@@ -293,6 +294,33 @@ theorem smallVector_no_leak (c : Nat) (zero : α) (h : List (Op α))
 example : ∀ k, (run (smallImpl 4 (0 : Int)) World.empty [.ctorN 0 5, .copy 1 0, .destroy 0, .destroy 1]).objs k = none := by
   intro k
   by_cases h0 : k = 0 <;> by_cases h1 : k = 1 <;> simp [run, step, World.put, World.empty, h0, h1]
+
+/-- nothing is freed twice and only blocks that were handed out are freed; a live object never holds a freed block (no
+    dangling heap part) and two live objects never share a block — EVERY history over the whole alphabet -/
+theorem smallVector_no_double_free (c : Nat) (zero : α) (h : List (Op α)) :
+    (run (smallImpl c zero) World.empty h).led.freed.Nodup ∧
+    (∀ b ∈ (run (smallImpl c zero) World.empty h).led.freed, b < (run (smallImpl c zero) World.empty h).led.allocs) ∧
+    (∀ k x p, (run (smallImpl c zero) World.empty h).objs k = some x → Small.blk x = some p →
+      p < (run (smallImpl c zero) World.empty h).led.allocs ∧ p ∉ (run (smallImpl c zero) World.empty h).led.freed) ∧
+    (∀ k1 k2 x1 x2 p, k1 ≠ k2 → (run (smallImpl c zero) World.empty h).objs k1 = some x1 →
+      (run (smallImpl c zero) World.empty h).objs k2 = some x2 → Small.blk x1 = some p → Small.blk x2 ≠ some p) :=
+  let hw := small_run_linvg c zero h (LInvG.empty Small.blk (Small.Inv c))
+  ⟨hw.freedNodup, hw.freedLt, hw.owned, hw.distinct⟩
+
+/-- … and once all objects are destroyed the freed blocks are exactly the blocks handed out, each freed once -/
+theorem smallVector_no_leak_blocks (c : Nat) (zero : α) (h : List (Op α))
+    (hdead : ∀ k, (run (smallImpl c zero) World.empty h).objs k = none) :
+    (∀ b, b < (run (smallImpl c zero) World.empty h).led.allocs ↔ b ∈ (run (smallImpl c zero) World.empty h).led.freed) ∧
+    (run (smallImpl c zero) World.empty h).led.freed.Nodup := by
+  have hw := small_run_linvg c zero h (LInvG.empty Small.blk (Small.Inv c))
+  refine ⟨fun b => ⟨fun hb => ?_, hw.freedLt b⟩, hw.freedNodup⟩
+  rcases hw.accounted b hb with h' | ⟨k, x, hx, _⟩
+  · exact h'
+  · rw [hdead k] at hx; cases hx
+
+example : (run (smallImpl 4 (0 : Int)) World.empty
+    [.ctorN 0 6, .copy 1 0, .ctor 2, .assign 0 2, .push 2 1, .assign 2 1, .destroy 0, .destroy 1, .destroy 2]).led.freed
+    = [6, 4, 5, 2, 3, 1, 0] := by decide
 
 /-- regression instances of the repaired defects: growth past DIM and destruction (two blocks used to be dropped), copy
     of a heap-mode object, assignment of a static over a heap-mode object, `x.push_back(x[i])` at size DIM in static
